@@ -144,6 +144,23 @@ Theorem C13_refuted_ctx_lost :
 Proof. exact refuted_ctx_lost. Qed.
 Print Assumptions C13_refuted_ctx_lost.
 
+(** Read side: for every reachable state (all interleavings, restarts and crashes, both variants) every
+    committed identifier is resolved to exactly the id the write side handed out - including the very
+    first identifier of a store, whose id is 0 because the sequence starts there.  Reading "0" as "no id"
+    is refuted: it loses the first identifier the driver's store ever asserts. *)
+Theorem C13_read_side_agrees : forall L m ops u i, 1 <= L ->
+  let st := fst (id_run m L ops (id_init L)) in
+  In (u, i) (disk st) -> read_id st u = Some i.
+Proof. intros L m ops u i HL st. apply read_id_committed. exact (ids_reachable_inv L HL m ops). Qed.
+Print Assumptions C13_read_side_agrees.
+
+Theorem C13_refuted_read_nonzero :
+  let st := wid (w_setup v_fixed L_go dss_ab) in
+  read_id st (s_ns0c ++ s_core) = Some 0 /\ read_id_nz st (s_ns0c ++ s_core) = None
+  /\ read_id_nz st s_type = read_id st s_type.
+Proof. vm_compute. repeat split; reflexivity. Qed.
+Print Assumptions C13_refuted_read_nonzero.
+
 (** F13c, exact characterisation.  (1) A restart or crash loses exactly the pairs that were still
     pending in the id transaction: a committed pair stays the answer, a pending pair is gone and its
     URI is given a strictly larger id - for every reachable state, either variant.  (2) On the same
